@@ -778,7 +778,14 @@ func validateFieldMapping(predecessorType reflect.Type, successorType reflect.Ty
 	return &handlerPair{
 		invoke: checker,
 		transform: func(input streamReader) streamReader {
-			return packStreamReader(schema.StreamReaderWithConvert(input.toAnyStreamReader(), checker))
+			// keep the chunk type map[string]any: the input converter of the successor expects it
+			return packStreamReader(schema.StreamReaderWithConvert(input.toAnyStreamReader(), func(value any) (map[string]any, error) {
+				checked, err := checker(value)
+				if err != nil {
+					return nil, err
+				}
+				return checked.(map[string]any), nil
+			}))
 		},
 	}, nil
 }
